@@ -124,6 +124,15 @@ class Ctx:
         self.t0 = time.time()
         self.t_case = time.time()
         self.current = None
+        # wall-clock budget: past this instant no new case is started (inconclusive for what was skipped, never a violation)
+        self.deadline = float(os.environ.get("VERIF_DEADLINE", "inf"))
+        self.budget_skipped = 0
+
+    def out_of_time(self):
+        if time.time() > self.deadline:
+            self.budget_skipped += 1
+            return True
+        return False
 
     # -- direct reporting (enumerated macro-cases report micro-cases themselves) ----
     def report(self, sub, case, v, variant="-"):
@@ -282,6 +291,8 @@ def drive_hypothesis(sub, variant, ctx, n_examples, seed_int, shrink_budget_s):
                 if state["best"] is not None and canon(case) == state["best"]:
                     raise state["best_v"]
                 return
+            if state["best"] is None and ctx.out_of_time():
+                return
             v = run_case(sub, case, ctx)
             if v is None:
                 return
@@ -338,6 +349,8 @@ def drive_hypothesis(sub, variant, ctx, n_examples, seed_int, shrink_budget_s):
 
 def drive_enumeration(sub, variant, replica, nreplicas, ctx):
     for case in sub.enumerate(ctx.tier, variant, replica, nreplicas):
+        if ctx.out_of_time():
+            break
         v = run_case(sub, case, ctx)
         if v is not None:
             ctx.report(sub.name, v.extra.get("case", case), v, variant)
